@@ -7,14 +7,42 @@ TAGS = ['status', 'cancel', 'taskret', 'tfin', 'caught', 'spawn', 'cleanup']
 RULE = ('(a) scope trees: nested (until-)scopes (depth <= 3, <= 3 children each, volatile or delayed), bodies and children that '
         'sleep/raise (regular and privileged types)/return, cancels from inside and from a separate activity after t time units '
         'and k postponements, deadlines and flags on a coarse time grid, everything wrapped in handlers that log what they catch; '
-        '(b) random valid whole-API programs (no usage errors); non-trivial = a task was cancelled or its status probed')
+        '(b) random valid whole-API programs (no usage errors); (c) one task cancelled repeatedly with different tokens / closed and then cancelled, before its first turn or later, awaited by several activities; non-trivial = a task was cancelled or its status probed')
 
 
 def nontrivial(impl):
     return any(':cancel:' in e or ':status:' in e for e in impl['events'])
 
 
-SOURCES = [scopesuite.scope_tree, scopesuite.valid_scenario, scopesuite.cancel_cleanup]
+def repeated_cancel(rng):
+    """a task is cancelled several times with different tokens and/or closed with its scope before its first turn or
+    while it runs, within one time step or across time; several activities await it (before and after) and log the
+    outcome they get"""
+    from fractions import Fraction as F
+    k = rng.randint(0, 2)
+    tok = rng.sample(range(1, 10), 3)
+    watcher = lambda i, d: ['prog', ['sleep', d], ['try', ['body', ['awaittask', 0], ['log', 30 + i]],
+                                                     ['handler', ['pats', 'taskCancelled', 'taskClosed', 'concurrent', 'anyException'], ['body', ['log', 40 + i]]]],
+                            ['status', 0]]
+    body = [['spawn', 0, 0, rng.choice([None, None, 1]), None, rng.random() < 0.2,
+             ['prog', ['log', 1], ['sleep', rng.choice([0, 1, 2])], ['ret', 7]]]]
+    body += [['sleep', 0]] * k
+    body += [['cancel', 0, tok[0]]]
+    body += [['sleep', 0]] * rng.randint(0, 1)
+    body += [['cancel', 0, tok[1]], ['status', 0]]
+    if rng.random() < 0.5:
+        body += [['sleep', rng.choice([0, F(1, 2), 1])], ['cancel', 0, tok[2]]]
+    main = ['prog', ['try', ['body', ['scope', 0, ['none']] + body], ['handler', ['pats', 'concurrent', 'anyException'], ['body', ['log', 20]]]],
+            ['cancel', 0, tok[2]], ['status', 0]]
+    if rng.random() < 0.4:
+        # the scope fails right after creating the task: the task is closed, then cancelled
+        main = ['prog', ['try', ['body', ['scope', 0, ['none'], body[0], ['raise', 0]]], ['handler', ['pats', ['user', 0]], ['body', ['log', 21]]]],
+                ['cancel', 0, tok[0]], ['sleep', 0], ['cancel', 0, tok[1]], ['status', 0]]
+    roots = [main] + [watcher(i, d) for i, d in enumerate(rng.sample([0, 0, F(1, 2), 1, 2, 3], rng.randint(1, 3)))]
+    return ['scenario', ['debug', 1], ['start', 0], ['flags', 1], ['locks', 0], ['roots'] + roots]
+
+
+SOURCES = [scopesuite.scope_tree, scopesuite.valid_scenario, scopesuite.cancel_cleanup, repeated_cancel]
 
 
 def run(tier, seed, drv):
